@@ -1186,6 +1186,13 @@ def source_cases(rnd, tier):
         neq = 2 if kind == "shallowwater" else 3
         n = rnd.choice([1, 2, 4, 9, 20])
         m = K1.random_mesh(rnd, n)
+        forced_section = None
+        if kind == "nozzle" and c % 9 == 1:        # every third nozzle: a microscopic mesh (section variation per cell ~1e-8 .. 1e-10)
+            m = fd.mesh.refinedmesh(ncell=max(n, 4), length=[2e-7, 3e-9][(c // 9) % 2], ratio=2.0)
+            forced_section = (1.0, 0.5)
+        elif kind == "nozzle" and c % 9 == 4:      # ... and every third: a gentle taper on a fine ordinary mesh
+            m = fd.uniform(20, length=1.0)
+            forced_section = (1.0, [1e-4, -3e-6][(c // 9) % 2])
         n = m.ncell
         recon = rnd.choice(fd.TOKEN_RECONS)
         flux = rnd.choice(FLUXES[kind])
@@ -1244,6 +1251,8 @@ def source_cases(rnd, tier):
             else:
                 gam = rnd.choice([1.4, 5.0 / 3.0])
                 a0, a1 = rnd.choice([(1.0, 0.0), (1.0, 0.5), (2.0, -0.25), (0.5, 1.0)])
+                if forced_section is not None:
+                    a0, a1 = forced_section
                 section = (a0, a1)
                 law = (lambda a0_, a1_: (lambda x: a0_ + a1_ * x))(a0, a1)
                 mw = fd.euler.nozzle(law, gamma=gam, source=srcs)
